@@ -58,7 +58,7 @@ def avg_case(args):
                 ave = diskcache.Averager(cache, 'avg')
 
                 def prepare():
-                    cache._con
+                    __import__('conc').open_connection(cache)
 
                 def execute(op):
                     if op[0] == 'a':
